@@ -25,7 +25,19 @@ Definition cast (k : ikind) (z : Z) : Z :=
 Definition is_true (o : option bool) : bool := match o with Some true => true | _ => false end.
 Definition is_some {A} (o : option A) : bool := match o with Some _ => true | None => false end.
 
-(* integer rules: the two early errors, then lt/lte and gt/gte selection *)
+(* checkIntegerBounds: the bounds a format's rule can hold (declared bounds are int64) *)
+Definition bound_ok (k : ikind) (z : Z) : bool :=
+  match k with
+  | I32 => (- 2 ^ 31 <=? z) && (z <? 2 ^ 31)
+  | I64 => (- 2 ^ 63 <=? z) && (z <? 2 ^ 63)
+  | U32 => (0 <=? z) && (z <? 2 ^ 32)
+  | U64 => (0 <=? z) && (z <? 2 ^ 63)
+  end.
+Definition opt_bound_ok (k : ikind) (o : option Z) : bool :=
+  match o with Some z => bound_ok k z | None => true end.
+
+(* integer rules: the early errors (flag without bound, bound out of range,
+   minimum above maximum), then lt/lte and gt/gte selection *)
 Definition write_int_rules (k : ikind) (r : int_rules) : outcome tyc :=
   match ir_xmin r, ir_min r with
   | Some false, None => Err "exclusive minimum requires minimum"
@@ -33,6 +45,11 @@ Definition write_int_rules (k : ikind) (r : int_rules) : outcome tyc :=
     match ir_xmax r, ir_max r with
     | Some false, None => Err "exclusive maximum requires maximum"
     | _, _ =>
+      if negb (opt_bound_ok k (ir_min r)) then Err "minimum out of range"
+      else if negb (opt_bound_ok k (ir_max r)) then Err "maximum out of range"
+      else if match ir_min r, ir_max r with Some a, Some b => b <? a | _, _ => false end
+      then Err "minimum is greater than maximum"
+      else
       Ok (CInt k
             (match ir_max r with
              | None => NoUb
